@@ -6,7 +6,7 @@ import re
 from ..program import AnalysisError, walk_local, dotted
 from ..analysis import Spec, src, class_const, const_value
 from ..regexlang import Lang
-from ..rules import (template_sites, GWF, EXC, need_func, stores_to, is_const)
+from ..rules import (substitute_locals, template_sites, GWF, EXC, need_func, stores_to, is_const)
 from . import common
 
 BR = GWF + '.branches'
@@ -66,18 +66,26 @@ def version_tuple(prog, an, rep):
 
 def factory_classes(prog, an):
     f = need_func(an, BR + '.branch_factory')
-    loops = [n for n in walk_local(f.node, include_root=False)
-             if isinstance(n, ast.For) and isinstance(n.iter, (ast.List,
-                                                              ast.Tuple))]
+    loops = []
+    for n in walk_local(f.node, include_root=False):
+        if isinstance(n, ast.For):
+            it = substitute_locals(f, n.iter)
+            if isinstance(it, (ast.List, ast.Tuple)):
+                loops.append((n, it))
     if len(loops) != 1:
         raise AnalysisError('anchor-missing class list in branch_factory')
+    loops = [loops[0][0]]
     out = []
-    for e in loops[0].iter.elts:
+    for e in it_elts(f, loops[0]):
         q = prog.resolve_expr(f.module, e, f)
         if q not in prog.classes:
             raise AnalysisError('branch_factory: %s is not a class' % src(e))
         out.append(prog.classes[q])
     return f, loops[0], out
+
+
+def it_elts(f, loop):
+    return substitute_locals(f, loop.iter).elts
 
 
 _LANG = {}
